@@ -92,7 +92,7 @@ SCENARIOS.update({
 BOUND2 = ["2x1_text_plain", "2x1_text_deflate", "2x1_text_binary_deflate", "2x1_text_ping_deflate"]
 FIRST_USE = ["2x1_text_deflate", "2x1_text_deflate_nct", "2x2_deflate_nct"]
 IN_WRITE = ["2x2_plain", "close_vs_2_sends", "3x1_deflate", "send_ping_close", "close_close_send", "3x1_all_compressed_deflate"]
-PAIRS_AT_POINTS = []      # (a pair sweep at write / lock points exists but is switched off: cost without a catch so far)
+PAIRS_AT_POINTS = ["3x1_all_compressed_deflate", "3x1_deflate"]
 IN_WRITE_POINTS = ("sendall.mid", "lock.acquire", "cond.wait", "cond.notify")
 FIRST_USE_NARROW = ["2x2_deflate_nct"]
 EARLY = 24
@@ -260,9 +260,11 @@ class C11(Prop):
                                     yield {"scn": name, "order": list(order), "first": [step - 1, t], "chain2": True,
                                            "chain3": True}
                                     if name in PAIRS_AT_POINTS:
-                                        # ... and every PAIR of preemptions that both sit at a write / lock / condition point
+                                        # ... and every PAIR of preemptions that both sit at a write / lock / condition
+                                        # point, the preempted threads resuming in reverse order (two threads queue up
+                                        # behind the first while it is still inside its write)
                                         yield {"scn": name, "order": list(order), "first": [step - 1, t], "sweep2": True,
-                                               "sweep2_in": "<points only>"}
+                                               "sweep2_in": "<points only>", "resume": "lifo"}
                                 else:
                                     yield {"scn": name, "order": list(order), "first": [step - 1, t], "sweep2": True}
         out = [Enumeration("all_orders_x_single_preemptions" + ("_and_pairs" if bound2 else ""), cases, exhaustive=True)]
@@ -313,20 +315,24 @@ class C11(Prop):
             from harness.runner import inconclusive
             return inconclusive("setup_not_ready", {"scn:" + case["scn"]})
 
+    @staticmethod
+    def _resume(case):
+        return {"resume": case["resume"]} if case.get("resume") else {}
+
     def _run_case(self, case):
         scns = self.scenarios()
         scn = scns[case["scn"]]
         labels = {"scn:" + case["scn"]}
         sub = []
         if "preempt" in case:
-            schedule = {"order": case["order"], "preempt": case["preempt"]}
+            schedule = dict({"order": case["order"], "preempt": case["preempt"]}, **self._resume(case))
             out, bad = self.run_one(scn, schedule, labels, sub, "r")
             nontrivial = bool(out.taken)
             if bad:
                 return failed(bad[0], bad[1], labels, nontrivial)
             return held(labels, nontrivial)
         first = case["first"]
-        schedule = {"order": case["order"], "preempt": [first] if first else []}
+        schedule = dict({"order": case["order"], "preempt": [first] if first else []}, **self._resume(case))
         out, bad = self.run_one(scn, schedule, labels, sub, "1", keep_log=bool(first and case.get("chain2")))
         took = bool(out.taken)
         if bad:
@@ -351,7 +357,7 @@ class C11(Prop):
                     for u in names:
                         if u == t or u == resumed:
                             continue
-                        out2, bad = self.run_one(scn, {"order": case["order"], "preempt": [first, [s2, u]]}, labels, sub,
+                        out2, bad = self.run_one(scn, dict({"order": case["order"], "preempt": [first, [s2, u]]}, **self._resume(case)), labels, sub,
                                                  "c2:%d:%s" % (s2, u), keep_log=bool(case.get("chain3")))
                         if bad:
                             return failed(bad[0], bad[1], labels, True, sub[1:])
@@ -365,7 +371,7 @@ class C11(Prop):
                             for v in names:
                                 if v == who3:
                                     continue
-                                out3, bad = self.run_one(scn, {"order": case["order"], "preempt": [first, [s2, u], [s3 - 1, v]]},
+                                out3, bad = self.run_one(scn, dict({"order": case["order"], "preempt": [first, [s2, u], [s3 - 1, v]]}, **self._resume(case)),
                                                          labels, sub, "c3:%d:%s" % (s3, v))
                                 if bad:
                                     return failed(bad[0], bad[1], labels, True, sub[1:])
@@ -379,7 +385,7 @@ class C11(Prop):
                     wh in IN_WRITE_POINTS or (isinstance(wh, tuple) and wh[0].endswith(case["sweep2_in"])))]
             for s2 in steps2:
                 for t2 in names:
-                    out2, bad = self.run_one(scn, {"order": case["order"], "preempt": [first, [s2, t2]]}, labels, sub,
+                    out2, bad = self.run_one(scn, dict({"order": case["order"], "preempt": [first, [s2, t2]]}, **self._resume(case)), labels, sub,
                                              "2:%d:%s" % (s2, t2))
                     if bad:
                         return failed(bad[0], bad[1], labels, True, sub[1:])
